@@ -55,6 +55,11 @@ CHECKS = {
         technique="TLA+ definition of symbol resolution (SymbolTable.tla) evaluated by TLC as reference; exhaustive small module trees x references x `from` ops through every lookup API",
         text="Every verified module tree with <=4 (thorough: 5) nodes over named/unnamed symbol tables, non-table symbols and plain region ops with public/private visibility, every reference of length <=3 and every `from` operation is resolved through SymbolTable.lookup_nearest_symbol_from / lookup_symbol_in, the cached SymbolTableCollection (cold and warm) and traits.SymbolTable.lookup_symbol; TLC computes the designated symbol.",
         note="Trusted: SymbolTable.tla states the nesting rules. Exhaustive for the bound."),
+    "C26": dict(
+        category="exploration", design_ref="DESIGN.md §3.10, §4 C26",
+        technique="TLA+ value semantics of affine expressions (Affine.tla: Eval, substitution) evaluated by TLC as reference for tables produced by the real eval() of built / simplified / composed / substituted / re-parsed expressions",
+        text="Abstract expression trees (all depth-1 trees plus seeded depth 2-3) are built with the Python operators and the raw constructor, simplified, composed with maps, substituted and printed + re-parsed; the real eval() of each form is tabulated on a box of 75 (thorough: 147) points and TLC compares every entry with Eval of the original tree under the substitution.",
+        note="Trusted: Affine.tla; TLC integer arithmetic (values far below 2^31). Divisors / moduli are positive constants as the property requires."),
 }
 
 NOT_APPLICABLE = {
